@@ -266,10 +266,15 @@ mod verif_drawing {
     pub fn draw_line_thin_clamped_box() {
         let (old, mut img) = any_image::<N, N>();
         let (p, q) = any_line();
-        let width: u8 = kani::any();
-        kani::assume(width <= 1);
+        // The width is passed as a literal: symbolic execution does not prune the wide-line
+        // branch (float geometry + polygon fill) on a merely *assumed* width.
+        let width: u32 = if kani::any() { 0 } else { 1 };
         let v: u8 = kani::any();
-        draw_line(img.view_mut(), Line::from_endpoints(p, q), v, width as u32);
+        if width == 0 {
+            draw_line(img.view_mut(), Line::from_endpoints(p, q), v, 0);
+        } else {
+            draw_line(img.view_mut(), Line::from_endpoints(p, q), v, 1);
+        }
         let (y, x) = any_px::<N, N>();
         if changed(&old, &img, y, x) {
             assert!(width == 1, "draw_line with width 0 changed a pixel");
@@ -337,10 +342,13 @@ mod verif_drawing {
         let n: u8 = kani::any();
         kani::assume(n <= 3);
         let n = n as usize;
-        let width: u8 = kani::any();
-        kani::assume(width <= 1);
+        let width: u32 = if kani::any() { 0 } else { 1 };
         let v: u8 = kani::any();
-        draw_polygon(img.view_mut(), &pts[..n], v, width as u32);
+        if width == 0 {
+            draw_polygon(img.view_mut(), &pts[..n], v, 0);
+        } else {
+            draw_polygon(img.view_mut(), &pts[..n], v, 1);
+        }
         let (y, x) = any_px::<N, N>();
         if changed(&old, &img, y, x) {
             assert!(width == 1 && n >= 2, "draw_polygon changed a pixel for an empty outline");
